@@ -754,7 +754,10 @@ class ConfigParser(object):
       'charge' : float,
       'lattice_type' : default}
 
-    converted = known_properties.get(property_name, default)(v)
+    try:
+      converted = known_properties.get(property_name, default)(v)
+    except ValueError:
+      raise ConfigParserException("Error when parsing [Species] section. Could not convert value of '{}' into type expected for this property. Value: '{}'".format(property_name, v))
     return converted
 
   @property
